@@ -415,7 +415,7 @@ def run_cfg_rest(ctx, p, cfg):
             fs = [g for g in p.fns.values() if g.d.get("impl_self_adt") == adt and g.path.endswith("::finish")]
             if len(fs) != 1:
                 raise AnchorMissing("%s::finish not found" % adt)
-            g = fs[0]
+            g = p.fn_loops(fs[0].path)
             wf = [c for c in g.calls("std::io::Write::write_fmt")]
             r.require(len(wf) == 1 and g.in_loop(wf[0].block), "%s:pads-in-a-loop" % adt.rsplit("::", 1)[-1], fn=g, detail="fill written once per remaining column")
             if wf:
